@@ -12,6 +12,7 @@ import (
 	"sort"
 	"strconv"
 	"strings"
+	"sync"
 	"sync/atomic"
 	"testing"
 	"time"
@@ -128,7 +129,11 @@ func run(c Case) (fs []failure, inconc string, facts map[string]bool, hist any) 
 	var fired atomic.Int64
 	evs := append([]Event(nil), c.Events...)
 	sort.SliceStable(evs, func(a, b int) bool { return evs[a].AfterReq < evs[b].AfterReq })
+	var applyMu sync.Mutex
 	apply := func() {
+		// called from every node's request hook (each under its own lock): one at a time
+		applyMu.Lock()
+		defer applyMu.Unlock()
 		n := int(cs.Seq.Load())
 		for int(fired.Load()) < len(evs) && evs[fired.Load()].AfterReq <= n {
 			e := evs[fired.Load()]
